@@ -60,6 +60,7 @@ class Recorder:
         self.task_obj = {}
         self.crash = None
         self.wire_ctx = []  # (context id the variable pointed to, name hint) per WireStart, for linking sub-requests
+        self.abandoned = []  # event numbers of top-level exits that left live child tasks behind (outside the usage discipline)
         self.hint = None
 
     # -- tasks
@@ -126,12 +127,13 @@ class Recorder:
                 res.append([i + 1] + r)
         return res
 
-    def event(self, a, t, u=0, last=False, ucur=0, par=0):
+    def event(self, a, t, u=0, last=False, ucur=0, par=0, raised=False):
         ev = {
             "a": a,
             "t": t,
             "u": u,
             "last": bool(last),
+            "raised": bool(raised),
             "tau": ticks(self.clock.now),
             "cur": self.cur_of(self.task_obj[t]),
             "ucur": ucur,
@@ -140,15 +142,45 @@ class Recorder:
             "n": 0,
             "rs": 0,
             "st": 0,
+            "ok": True,
             "deps": [],
         }
         self.events.append(ev)
         return ev
 
-    def sample(self, t, n, rs, st, deps):
+    def sample(self, t, n, rs, st, ok, deps):
         self.events.append(
-            {"a": "Sample", "t": t, "u": 0, "last": False, "tau": ticks(self.clock.now), "cur": 0, "ucur": 0, "par": 0, "d": [], "n": n, "rs": rs, "st": st, "deps": deps}
+            {
+                "a": "Sample",
+                "t": t,
+                "u": 0,
+                "last": False,
+                "raised": False,
+                "tau": ticks(self.clock.now),
+                "cur": 0,
+                "ucur": 0,
+                "par": 0,
+                "d": [],
+                "n": n,
+                "rs": rs,
+                "st": st,
+                "ok": bool(ok),
+                "deps": deps,
+            }
         )
+
+    def live_descendants(self, root):
+        """Tasks created (transitively) by `root` that have not finished."""
+        res = []
+        for tid, task in self.task_obj.items():
+            if tid == root or task.done():
+                continue
+            p = tid
+            while self.parent.get(p, 0):
+                p = self.parent[p]
+            if p == root:
+                res.append(tid)
+        return res
 
 
 class ObservedManager:
@@ -168,7 +200,12 @@ class ObservedManager:
 
     def __exit__(self, exc_type, exc_val, exc_tb):
         r = self._real.__exit__(exc_type, exc_val, exc_tb)
-        self._rec.event("Exit", self._rec.me())
+        rec = self._rec
+        me = rec.me()
+        ev = rec.event("Exit", me, raised=exc_type is not None)
+        if ev["cur"] == 0 and rec.parent.get(me, 0) == 0 and rec.live_descendants(me):
+            # a top-level request context is left while tasks created inside it still run (cancelled, not awaited)
+            rec.abandoned.append(len(rec.events))
         return r
 
     @property
@@ -263,14 +300,15 @@ class Struct:
         else:
             raise tlc.MachineryError("unknown step %r" % (step,))
 
-    def closing(self):
-        """Steps that bring the scenario nearer to its end: finish wire requests, join finished children, leave blocks."""
+    def closing(self, rnd=None, p_raise=0.0):
+        """Steps that bring the scenario nearer to its end: finish wire requests, join finished children, leave blocks
+        (flag of an Exit: the block is left by an exception)."""
         res = []
         for t in sorted(self.ts):
             if self.ts[t] == "wire":
                 res.append(("WireEnd", t, 0, True))
             if self.can_exit(t):
-                res.append(("Exit", t, 0, False))
+                res.append(("Exit", t, 0, bool(rnd is not None and rnd.random() < p_raise)))
             if self.can_join(t):
                 res.append(("Join", self.tpar[t], t, False))
         return res
@@ -279,7 +317,7 @@ class Struct:
         return all((self.ts[t] == "done") if self.tpar[t] else (self.ts[t] == "run" and not self.scope[t]) for t in self.ts)
 
 
-def complete(roots, steps, rnd, tie=0.0):
+def complete(roots, steps, rnd, tie=0.0, p_raise=0.0):
     """Append closing steps (in a seeded random order) until every block is left and every child task is joined."""
     st = Struct(roots)
     for s in steps:
@@ -287,7 +325,7 @@ def complete(roots, steps, rnd, tie=0.0):
     steps = list(steps)
     guard = 0
     while not st.finished():
-        cl = st.closing()
+        cl = st.closing(rnd, p_raise)
         if not cl:
             raise tlc.MachineryError("scenario cannot be completed")
         a, t, u, last = rnd.choice(cl)
@@ -311,6 +349,7 @@ def random_script(rnd, max_roots=3, max_tasks=8, max_ctx=10, max_depth=4, max_wi
     nwire = 0
     n = rnd.randint(4, max_steps)
     w_enter, w_wire, w_spawn = rnd.choice([(3, 3, 2), (2, 4, 1), (4, 2, 3)])
+    p_raise = rnd.choice([0.0, 0.2, 0.5])
     for _ in range(n):
         en = []
         for t in sorted(st.ts):
@@ -323,7 +362,7 @@ def random_script(rnd, max_roots=3, max_tasks=8, max_ctx=10, max_depth=4, max_wi
                     en += [("Spawn", t, st.ntasks + 1, False)] * w_spawn
             if st.ts[t] == "wire":
                 en += [("WireEnd", t, 0, True)] * 3 + [("WireEnd", t, 0, False)]
-        en += st.closing() * 2
+        en += st.closing(rnd, p_raise) * 2
         if not en:
             break
         a, t, u, last = rnd.choice(en)
@@ -335,7 +374,7 @@ def random_script(rnd, max_roots=3, max_tasks=8, max_ctx=10, max_depth=4, max_wi
         step = (a, t, u, last, tau)
         st.apply(step)
         steps.append(step)
-    return {"kind": "script", "roots": roots, "steps": [list(s) for s in complete(roots, steps, rnd, tie)]}
+    return {"kind": "script", "roots": roots, "steps": [list(s) for s in complete(roots, steps, rnd, tie, p_raise)]}
 
 
 # ---------------------------------------------------------------------------------------------------
@@ -343,6 +382,10 @@ def random_script(rnd, max_roots=3, max_tasks=8, max_ctx=10, max_depth=4, max_wi
 # ---------------------------------------------------------------------------------------------------
 def _step_loop(loop):
     loop.run_ready()
+
+
+class _SubRequestFailed(Exception):
+    pass
 
 
 def run_script(script):
@@ -363,13 +406,18 @@ def run_script(script):
             st = await queues[t].get()
             a = st[0]
             if a == "Enter":
-                with H.new_request_context():
-                    await block(t, depth + 1)
+                try:
+                    with H.new_request_context():
+                        if await block(t, depth + 1):
+                            # the sub-request failed: the exception leaves the block and is handled by the enclosing code
+                            raise _SubRequestFailed()
+                except _SubRequestFailed:
+                    pass
                 # the `with` statement has just left the block (Exit recorded by the proxy)
             elif a == "Exit":
                 if depth == 0:
                     raise tlc.MachineryError("Exit without block in task %d" % t)
-                return
+                return bool(st[3])
             elif a == "WireStart":
                 H.on_request_start()
             elif a == "WireEnd":
@@ -384,7 +432,7 @@ def run_script(script):
             elif a == "Finish":
                 if depth != 0:
                     raise tlc.MachineryError("task %d finishes inside a block" % t)
-                return
+                return False
             else:
                 raise tlc.MachineryError("unknown step %r" % (st,))
 
@@ -423,7 +471,7 @@ def run_script(script):
                 if rec.crash is not None:
                     break
                 new = rec.events[before:]
-                if len(new) != 1 or new[0]["a"] != a or new[0]["t"] != t or new[0]["u"] != u:
+                if len(new) != 1 or new[0]["a"] != a or new[0]["t"] != t or new[0]["u"] != u or (a == "Exit" and new[0]["raised"] != bool(st[3])):
                     raise tlc.MachineryError("step %r produced events %r" % (st, [(e["a"], e["t"], e["u"]) for e in new]))
             if rec.crash is None:
                 for r in roots:
@@ -443,7 +491,7 @@ def run_script(script):
                 pass
             asyncio.set_event_loop(None)
             loop.close()
-    return {"roots": roots, "ev": events, "crash": rec.crash}
+    return {"roots": roots, "ev": events, "crash": rec.crash, "abandoned": list(rec.abandoned)}
 
 
 # ---------------------------------------------------------------------------------------------------
@@ -475,6 +523,7 @@ def make_fake_es_class():
             k = self.count.get(name, 0)
             self.count[name] = k + 1
             pre, lat, chunks = op["reqs"][k]
+            fail = op.get("fail") if k == len(op["reqs"]) - 1 else None
             if pre:
                 await asyncio.sleep(pre / TPS)
             self._rec.hint = name
@@ -491,12 +540,27 @@ def make_fake_es_class():
                     self.end_is_last = True
                 await asyncio.sleep((lat - done) / TPS)
             finally:
+                # also the client's on_request_exception hook ends the request
                 self.end_is_last = True
                 self.on_request_end()
+            if fail:
+                raise _es_error(fail, name)
             total = len(op["reqs"])
             return io.BytesIO((_SEARCH_BODY % (total, k + 1)).encode("utf-8"))
 
     return FakeEs
+
+
+def _es_error(kind, name):
+    import elastic_transport
+    import elasticsearch
+
+    if kind == "timeout":
+        return elasticsearch.ConnectionTimeout("verif timeout in %s" % name)
+    meta = elastic_transport.ApiResponseMeta(
+        status=429 if kind == "api429" else 400, http_version="1.1", headers=elastic_transport.HttpHeaders(), duration=0.0, node=elastic_transport.NodeConfig("http", "verif", 9200)
+    )
+    return elasticsearch.ApiError("verif api error in %s" % name, meta, {"error": "verif"})
 
 
 def _collect_ops(items, acc):
@@ -616,7 +680,7 @@ def run_composite(case):
                 op = track.Operation(name="composite", operation_type="composite", params={})
                 task = track.Task(name="c18", operation=op, clients=nclients, warmup_iterations=0, iterations=len(cl["iters"]))
                 sched = _Schedule(crunner, cl["iters"], metrics.SampleType.Normal)
-                ex = driver.AsyncExecutor(ci, task, sched, {"default": es}, sampler, threading.Event(), threading.Event(), "abort")
+                ex = driver.AsyncExecutor(ci, task, sched, {"default": es}, sampler, threading.Event(), threading.Event(), "continue")
                 execs.append(loop.create_task(ex()))
             steps = 0
             while not all(t.done() for t in execs):
@@ -653,7 +717,7 @@ def run_composite(case):
                 for d in s._dependent_timing or []:  # pylint: disable=protected-access
                     tm = d["dependent_timing"]
                     deps.append([name_ctx.get(tm.get("operation"), 0), ticks(tm["request_start"]), ticks(tm["request_end"]), ticks(tm["service_time"])])
-                rec.sample(root, n, ticks(s.request_start), ticks(s.service_time), deps)
+                rec.sample(root, n, ticks(s.request_start), ticks(s.service_time), bool((s.request_meta_data or {}).get("success", True)), deps)
             events = list(rec.events)
         finally:
             try:
@@ -664,7 +728,7 @@ def run_composite(case):
                 pass
             asyncio.set_event_loop(None)
             loop.close()
-    return {"roots": list(range(1, nclients + 1)), "ev": events, "crash": rec.crash}
+    return {"roots": list(range(1, nclients + 1)), "ev": events, "crash": rec.crash, "abandoned": list(rec.abandoned)}
 
 
 # ---------------------------------------------------------------------------------------------------
@@ -677,9 +741,9 @@ def composite_from_script(script, rnd):
     st = Struct(roots)
     root_of = {r: r for r in roots}
     fly = {}
-    groups = {}  # (root, top ctx) -> {task: [[s, e, chunks]]}
+    groups = {}  # (root, top ctx) -> {task: [[s, e, chunks, innermost ctx]]}
     order = []
-    top_exit = {}
+    raised_ctx = set()
     for step in script["steps"]:
         a, t, u, last, tau = step
         if a == "Spawn":
@@ -690,16 +754,16 @@ def composite_from_script(script, rnd):
             if key not in groups:
                 groups[key] = {}
                 order.append(key)
-            fly[t] = (key, tau, [])
+            fly[t] = (key, tau, [], st.scope[t][-1])
         if a == "WireEnd":
-            key, s, chunks = fly[t]
+            key, s, chunks, inner = fly[t]
             if last:
-                groups[key].setdefault(t, []).append([s, tau, [c for c in chunks if c < tau]])
+                groups[key].setdefault(t, []).append([s, tau, [c for c in chunks if c < tau], inner])
                 del fly[t]
             else:
                 chunks.append(tau)
-        if a == "Exit" and len(st.scope[t]) == 1 and st.base[t] == 0:
-            top_exit[(root_of[t], st.scope[t][0])] = st.clock
+        if a == "Exit" and last:
+            raised_ctx.add(st.scope[t][-1])
         st.apply(tuple(step))
     clients = []
     nm = [0]
@@ -716,6 +780,12 @@ def composite_from_script(script, rnd):
                 continue
             streams = []
             end_all = t0
+            # the sub-request that ends last fails (timeout / API error) if its block was left by an exception in the scenario:
+            # every other stream has finished by then, the composite ends with it
+            allw = [w for t in groups[key] for w in groups[key][t]]
+            latest = max(w[1] for w in allw)
+            failing = [w for w in allw if w[1] == latest]
+            failing = failing[0] if len(failing) == 1 and failing[0][3] in raised_ctx else None
             for t in sorted(groups[key]):
                 prev = t0
                 ops = []
@@ -723,14 +793,17 @@ def composite_from_script(script, rnd):
                 i = 0
                 while i < len(wires):
                     k = 1
-                    if i + 1 < len(wires) and rnd.random() < 0.4:
+                    if i + 1 < len(wires) and wires[i] is not failing and rnd.random() < 0.4:
                         k = 2
                     reqs = []
-                    for s, e, chunks in wires[i : i + k]:
+                    for s, e, chunks, _inner in wires[i : i + k]:
                         reqs.append([s - prev, e - s, sorted({c - s for c in chunks if 0 <= c - s < e - s})])
                         prev = e
                     op = "paginated-search" if k > 1 else rnd.choice(["raw-request", "search", "paginated-search"])
-                    ops.append({"op": op, "name": name(), "reqs": reqs})
+                    item = {"op": op, "name": name(), "reqs": reqs}
+                    if failing is not None and any(w is failing for w in wires[i : i + k]):
+                        item["fail"] = rnd.choice(["timeout", "api400", "api429"])
+                    ops.append(item)
                     i += k
                 end_all = max(end_all, prev)
                 streams.append({"stream": ops})
@@ -783,13 +856,30 @@ def random_composite(rnd, max_clients=3):
             items.append(op())
         return items
 
+    def all_ops(items, top, acc):
+        for it in items:
+            if "stream" in it:
+                all_ops(it["stream"], False, acc)
+            elif it["op"] != "sleep":
+                acc.append((it, top))
+
     clients = []
     for _ in range(rnd.randint(1, max_clients)):
         iters = []
         at = 0
         for _i in range(rnd.randint(1, 3)):
             budget[0] = 8
-            iters.append({"at": at, "max_conn": rnd.choice([0, 0, 1, 2, 3]), "requests": stream(0)})
+            requests = stream(0)
+            if rnd.random() < 0.4:
+                # one sub-request of this composite request fails; half of the time one that is a direct item of the
+                # request list (all earlier streams have been awaited, nothing else is in flight)
+                cand = []
+                all_ops(requests, True, cand)
+                direct = [c for c in cand if c[1]]
+                pick = rnd.choice(direct) if direct and rnd.random() < 0.5 else (rnd.choice(cand) if cand else None)
+                if pick:
+                    pick[0]["fail"] = rnd.choice(["timeout", "api400", "api429"])
+            iters.append({"at": at, "max_conn": rnd.choice([0, 0, 1, 2, 3]), "requests": requests})
             at = 0 if rnd.random() < 0.5 else at + rnd.choice([3, 10, 25])
         clients.append({"iters": iters})
     return {"kind": "composite", "clients": clients}
